@@ -76,6 +76,7 @@ class Harness(cm.BaseB):
         out.append({"kind": "trseq"})
         out.append({"kind": "trmax"})
         out.append({"kind": "evo"})
+        out.append({"kind": "trmulti"})
         return out
 
     def cases(self, chunk):
@@ -103,6 +104,15 @@ class Harness(cm.BaseB):
                         v = k * min(m1, m2) + d
                         if v > 0:
                             yield {"kind": "trseq", "m1": m1, "m2": m2, "v": fhex(v)}
+        elif chunk["kind"] == "trmulti":
+            # several triples in one call: neighbouring volumes that differ in the second decimal, one source into
+            # several destinations and several sources into one destination with volumes in the opposite order
+            for dev in ("EvoWorklist", "FluentWorklist"):
+                for m in (950, 50, 33.5):
+                    for shape in ("pair", "fan-out", "fan-in", "chain"):
+                        for pb in ("auto", "source", "destination"):
+                            for k in (1, 2, 3):
+                                yield {"kind": "trmulti", "dev": dev, "m": m, "shape": shape, "pb": pb, "k": k}
         elif chunk["kind"] == "evo":
             # EVO script commands: a per-tip step above max_volume is refused with InvalidOperationError as well
             for op in ("evo_aspirate", "evo_dispense"):
@@ -171,6 +181,54 @@ class Harness(cm.BaseB):
         return f"pv:{min(len(res), 5)}steps", (f"pv{v!r}/{m}" if len(res) > 1 else None), V
 
     # -------------------------------------------------------------- end to end
+    def one_trmulti(self, case):
+        m, k = case["m"], case["k"]
+        if case["shape"] == "pair":
+            sw, dw, vols = ["A01", "B01", "C01"], ["A01", "B01", "C01"], [k * m, k * m + 0.01, k * m - 0.01]
+        elif case["shape"] == "fan-out":
+            sw, dw, vols = ["A01", "A01", "A01"], ["A01", "A02", "A03"], [2.5 * m + k, 0.7 * m, 1.3 * m + 0.25]
+        elif case["shape"] == "fan-in":
+            sw, dw, vols = ["C01", "B01", "A01"], ["B02", "B02", "B02"], [0.7 * m, 2.5 * m + k, 1.3 * m + 0.25]
+        else:
+            sw, dw, vols = ["A01", "A02", "B01", "B02"], ["B03", "A03", "B03", "C03"], [k * m + 0.5, 0.5 * m, 3 * m, k * m + 0.75]
+        vols = [round(v, 2) for v in vols]
+        src = rt.Labware("S", 3, 3, min_volume=0, max_volume=1e9, initial_volumes=1e8)
+        dst = rt.Labware("D", 3, 3, min_volume=0, max_volume=1e9)
+        wl = getattr(rt, case["dev"])(max_volume=m, auto_split=True)
+        try:
+            wl.transfer(src, sw, dst, dw, vols, partition_by=case["pb"])
+        except Exception as e:
+            return "trmulti:raised", f"trmulti{case}", [("C06/auto-split-transfer-refused", f"transfer({sw}, {dw}, {vols}) with max_volume={m} raised {type(e).__name__}: {e}")]
+        from ..ref.numbering import Geo
+
+        g = Geo("S", "plate", 3, 3)
+        P = [gwl.parse(r) for r in wl]
+        ad = [p for p in P if p["kind"] in "AD"]
+        V = []
+        flows = {}
+        for a, d in zip(ad[0::2], ad[1::2]):
+            if a["kind"] != "A" or d["kind"] != "D" or a["volume"] != d["volume"]:
+                V.append(("C06/pair-count", f"records are not aspirate/dispense pairs: {a['raw']!r} {d['raw']!r}"))
+                break
+            if a["volume"] > Fraction(m) + Fraction(5, 1000) or a["volume"] <= 0:
+                V.append(("C06/step>max_volume", f"{a['raw']!r} with max_volume={m}"))
+            key = (g.decode("evo", a["position"]), g.decode("evo", d["position"]))
+            flows.setdefault(key, []).append(a["volume"])
+        want = {}
+        for s_, d_, v in zip(sw, dw, vols):
+            want.setdefault((g.real(s_), g.real(d_)), []).append(Fraction(v))
+        for key, vs in want.items():
+            got = flows.get(key, [])
+            tot, n_allowed = sum(vs), set()
+            if abs(sum(got) - tot) > Fraction(5, 1000) * max(1, len(got)):
+                V.append(("C06/sum", f"transfer({sw}, {dw}, {vols}) with max_volume={m}: {key} received {float(sum(got))} in steps {[float(x) for x in got]}, requested {float(tot)}"))
+            elif len(vs) == 1:
+                if len(got) not in allowed_counts(float(vs[0]), m):
+                    V.append(("C06/pair-count", f"transfer({sw}, {dw}, {vols}) with max_volume={m}: {float(vs[0])} for {key} was emitted in {len(got)} steps, expected {sorted(allowed_counts(float(vs[0]), m))}"))
+        if set(flows) - set(want):
+            V.append(("C06/sum", f"transfer({sw}, {dw}, {vols}): records between wells that were not requested: {sorted(set(flows) - set(want))}"))
+        return "trmulti:ok", f"trmulti{case}", V
+
     def one_evo(self, case):
         m = case["m"]
         over = math.nextafter(m, math.inf) if case["vols"] == "ulp_over" else m + 0.5
